@@ -13,6 +13,8 @@ import QbeeModel.Model.ExprSem
 import QbeeModel.Model.Fold
 import QbeeModel.Model.Asm
 import QbeeModel.Model.DebugMap
+import QbeeModel.Model.Tick
+import QbeeModel.Model.Dbg
 /-
   Line-protocol driver for the executable models.  One request per line, one
   answer per line.  Unknown or malformed requests answer `bad-op`; the models
@@ -477,6 +479,124 @@ def handleDbgMap : List String → Option String
       pure (" ".intercalate (addrs.map fun a => match DebugMap.findStmt recs a with | some x => toString x.id | none => "-"))
   | _ => none
 
+def encTarget : Tick.Target → String
+  | .off => "off" | .next => "next" | .addr a => s!"a{a}"
+
+def encSt (s : Tick.St) : String :=
+  s!"{s.pc} {if s.halted then 1 else 0} " ++
+  (match s.reason with | .none => "none" | .instruction => "instr" | .trap => "trap" | .endOfCode => "end") ++
+  s!" {encTarget s.target} {if s.active then 1 else 0} {s.trappedAddr} " ++
+  (match s.lastTrap with | some c => toString c | none => "-") ++ s!" {if s.interrupt then 1 else 0} {s.prevPc}"
+
+def parseTarget (t : String) : Option Tick.Target :=
+  if t = "off" then some .off else if t = "next" then some .next
+  else match t.toList with
+    | 'a' :: r => (String.ofList r).toNat?.map .addr
+    | _ => none
+
+def parseSt : List String → Option (Tick.St × List String)
+  | pc :: h :: rs :: tg :: ac :: ta :: lt :: it :: pp :: r => do
+      let pc ← pc.toNat?; let pp ← pp.toNat?; let ta ← ta.toNat?; let tg ← parseTarget tg
+      let reason : Tick.Halt := if rs = "instr" then .instruction else if rs = "trap" then .trap else if rs = "end" then .endOfCode else .none
+      let lt := if lt = "-" then none else lt.toNat?
+      pure ({ pc := pc, halted := h = "1", reason := reason, target := tg, active := ac = "1", trappedAddr := ta,
+              lastTrap := lt, interrupt := it = "1", prevPc := pp }, r)
+  | _ => none
+
+def parseIK : List String → Option (Tick.IK × List String)
+  | "plain" :: n :: r => do let n ← n.toNat?; pure (.plain n, r)
+  | "traps" :: c :: sz :: r => do let c ← c.toNat?; let sz ← sz.toNat?; pure (.traps c sz, r)
+  | "host" :: c :: sz :: r => do let sz ← sz.toNat?; pure (.host c sz, r)
+  | "halt" :: r => some (.halt, r)
+  | "errhand" :: t :: sz :: r => do let t ← t.toNat?; let sz ← sz.toNat?; pure (.errhand t sz, r)
+  | "errres" :: sz :: r => do let sz ← sz.toNat?; pure (.errres sz, r)
+  | "errresn" :: sz :: r => do let sz ← sz.toNat?; pure (.errresn sz, r)
+  | "invalid" :: r => some (.invalidOp, r)
+  | _ => none
+
+/-- `tick <codeLen> <state 9 fields> <ik…> <stmt: - | s e>` -/
+def handleTick : List String → Option String
+  | cl :: r => do
+      let cl ← cl.toNat?
+      let (s, r1) ← parseSt r
+      let (ik, r2) ← parseIK r1
+      let stmt ← match r2 with
+        | ["-"] => some none
+        | [a, b] => do let a ← a.toNat?; let b ← b.toNat?; pure (some (a, b))
+        | _ => none
+      pure (match Tick.tick cl s ik stmt with
+        | .st s' => "st " ++ encSt s'
+        | .host c s' => s!"host {c} " ++ encSt s')
+  | _ => none
+
+
+/-! ### debugger sessions (C12): the machine is the recorded free run, a state is an index into it -/
+
+def triples : List Nat → List (Nat × Nat × Nat)
+  | a :: b :: c :: r => (a, b, c) :: triples r
+  | _ => []
+
+def quads : List Nat → List (Nat × Nat × Nat × Nat)
+  | a :: b :: c :: d :: r => (a, b, c, d) :: quads r
+  | _ => []
+
+def parseDbgCmds (recs : List Dbg.SRec) : List String → Option (List Dbg.Cmd)
+  | [] => some []
+  | "step" :: r => (parseDbgCmds recs r).map (.step :: ·)
+  | "next" :: r => (parseDbgCmds recs r).map (.next :: ·)
+  | "stepi" :: r => (parseDbgCmds recs r).map (.stepi :: ·)
+  | "nexti" :: r => (parseDbgCmds recs r).map (.nexti :: ·)
+  | "cont" :: r => (parseDbgCmds recs r).map (.cont :: ·)
+  | "bl" :: l :: r => do let l ← l.toNat?; let cs ← parseDbgCmds recs r; pure (.brk (Dbg.resolveLine recs l) :: cs)
+  | "dl" :: l :: r => do let l ← l.toNat?; let cs ← parseDbgCmds recs r; pure (.del (Dbg.resolveLine recs l) :: cs)
+  | "ba" :: a :: r => do let a ← a.toNat?; let cs ← parseDbgCmds recs r; pure (.brk (some (.exact a)) :: cs)
+  | "da" :: a :: r => do let a ← a.toNat?; let cs ← parseDbgCmds recs r; pure (.del (some (.exact a)) :: cs)
+  | "br" :: a :: b :: r => do let a ← a.toNat?; let b ← b.toNat?; let cs ← parseDbgCmds recs r; pure (.brk (some (.range a b)) :: cs)
+  | "dr" :: a :: b :: r => do let a ← a.toNat?; let b ← b.toNat?; let cs ← parseDbgCmds recs r; pure (.del (some (.range a b)) :: cs)
+  | "bx" :: r => (parseDbgCmds recs r).map (.brk none :: ·)
+  | "dx" :: r => (parseDbgCmds recs r).map (.del none :: ·)
+  | _ => none
+
+def encBp : Dbg.Bp → String
+  | .exact a => s!"e{a}"
+  | .range a b => s!"r{a}-{b}"
+
+/-- `dbg <codeLen> <entry|-> <haltIdx> T <n> (pc frame callsz)*n R <m> (s e line srcoff)*m C cmds…` -/
+def handleDbg : List String → Option String
+  | cl :: entry :: hi :: "T" :: n :: r => do
+      let cl ← cl.toNat?; let hi ← hi.toNat?; let n ← n.toNat?
+      let entry ← if entry = "-" then some none else entry.toNat?.map some
+      let (tv, r1) ← takeNats (3 * n) r
+      let tr := (triples tv).toArray
+      match r1 with
+      | "R" :: m :: r2 => do
+          let m ← m.toNat?
+          let (rv, r3) ← takeNats (4 * m) r2
+          let srecs := (quads rv).map fun (s, e, l, o) => ({ s := s, e := e, line := l, srcOff := o } : Dbg.SRec)
+          let recs : List DebugMap.Rec := (srecs.zipIdx).map fun (x, i) => ⟨i, x.s, x.e⟩
+          match r3 with
+          | "C" :: cs => do
+              let cmds ← parseDbgCmds srecs cs
+              let find := fun (a : Nat) => (DebugMap.findStmt recs a).map (·.id)
+              let M : Dbg.Mach Nat :=
+                { tick := fun i => i + 1,
+                  pc := fun i => (tr.getD i (0, 0, 0)).1,
+                  halted := fun i => decide (i ≥ hi),
+                  frame := fun i => (tr.getD i (0, 0, 0)).2.1,
+                  callSize := fun i => let c := (tr.getD i (0, 0, 0)).2.2; if c = 0 then none else some c,
+                  codeLen := cl,
+                  stmt := fun a => if a = 0 then entry.bind find else find a }
+              let fuel := n + 2
+              let s0 := Dbg.start M fuel 0
+              let (_, outs) := cmds.foldl (fun (acc : Dbg.DS Nat × List String) c =>
+                  let d' := Dbg.exec M fuel acc.1 c
+                  (d', acc.2 ++ [s!"{d'.s}:{d'.bps.length}"])) (({ s := s0, bps := [] } : Dbg.DS Nat), [])
+              let final := cmds.foldl (Dbg.exec M fuel) ({ s := s0, bps := [] } : Dbg.DS Nat)
+              pure (s!"{s0} | " ++ " ".intercalate outs ++ " | " ++ " ".intercalate (final.bps.map encBp))
+          | _ => none
+      | _ => none
+  | _ => none
+
 def handle (toks : List String) : String :=
   match toks with
   | "print" :: r =>
@@ -568,6 +688,8 @@ def handle (toks : List String) : String :=
   | "fold" :: r => (handleFold r).getD "bad-op"
   | "asm" :: r => handleAsm r
   | "dbgmap" :: r => (handleDbgMap r).getD "bad-op"
+  | "tick" :: r => (handleTick r).getD "bad-op"
+  | "dbg" :: r => (handleDbg r).getD "bad-op"
   | ["uscan", f] =>
     match decStr f with
     | some f => match Using.scanFmt f with
